@@ -611,6 +611,18 @@ def rule_H(ctx):
         def __eq__(self, o):
             return isinstance(o, Stamp) and o.t == self.t
 
+        def __lt__(self, o):
+            return self.t < o.t
+
+        def __gt__(self, o):
+            return self.t > o.t
+
+        def __le__(self, o):
+            return self.t <= o.t
+
+        def __ge__(self, o):
+            return self.t >= o.t
+
         def __hash__(self):
             return hash(self.t)
 
@@ -752,6 +764,50 @@ def rule_H(ctx):
                              'operation': label,
                              'names listed by the SOURCE track after': names, 'expected': sorted(model),
                              'why': 'the derived track shares the name -> column dictionary of its source: the source now lists features its observations hold no value for'}
+                      break
+          # a piece cut out by time (extractSpanTime copies the observations it keeps): writing, creating and deleting features on the piece
+          # leaves every value of the track it was cut from as it was
+          if not bad and 'extractSpanTime' in ctx.prog.cls('tracklib.core.track.Track').methods:
+              for st in states[1:]:
+                  t, model, dk = build(st, NOBS)
+                  P0 = t.fields['_Track__POINTS']
+                  e = t.call('extractSpanTime', P0[0].fields['timestamp'], P0[LAST].fields['timestamp'])
+                  label = 'e = track.extractSpanTime(first, last); e.setObsAnalyticalFeature(%s, 0, v); e.createAnalyticalFeature(q, scalar); e.removeAnalyticalFeature(%s)' % (st[0], st[0])
+                  e.call('setObsAnalyticalFeature', st[0], 0, Tok('piece', st[0]))
+                  e.call('createAnalyticalFeature', 'q', Tok('scalar', 'q'))
+                  e.call('removeAnalyticalFeature', st[0])
+                  n_tr += 1
+                  names, vals, widths, cols, frame = observe(t, dk, NOBS)
+                  if sorted(names) != sorted(model) or cols != list(range(len(model))) or any(w_ != len(model) for w_ in widths) or any(vals[nm] != model[nm] for nm in model):
+                      wrong = [nm for nm in model if vals.get(nm) != model[nm]]
+                      bad = {'table before (name -> column)': {nm: c for c, nm in enumerate(st)}, 'operation': label,
+                             'names listed by the SOURCE track after': names, 'values per observation of the SOURCE track after': widths, 'listed names expected': sorted(model),
+                             'feature of the SOURCE track that reads differently': (wrong[0], repr(vals.get(wrong[0])), repr(model[wrong[0]])) if wrong else None,
+                             'why': 'the observations of the piece are copies: writing, creating or deleting a feature on it leaves the values the source track carries as they were'}
+                      break
+          # a track closed on itself by appending a copy of its first observation (loop(add=True)): the appended observation is one more
+          # observation with values of its own
+          if not bad and NOBS >= 3 and 'loop' in ctx.prog.cls('tracklib.core.track.Track').methods:
+              for st in states[1:]:
+                  t, model, dk = build(st, NOBS)
+                  label = 'track.loop(add=True); track.setObsAnalyticalFeature(%s, 0, v); track.createAnalyticalFeature(q, scalar); track.removeAnalyticalFeature(%s)' % (st[0], st[0])
+                  t.call('loop', True)
+                  for nm in model:
+                      model[nm] = model[nm] + [model[nm][0]]
+                  t.call('setObsAnalyticalFeature', st[0], 0, Tok('first', st[0]))
+                  model[st[0]][0] = Tok('first', st[0])
+                  t.call('createAnalyticalFeature', 'q', Tok('scalar', 'q'))
+                  model['q'] = [Tok('scalar', 'q')] * (NOBS + 1)
+                  t.call('removeAnalyticalFeature', st[0])
+                  model.pop(st[0])
+                  n_tr += 1
+                  names, vals, widths, cols, frame = observe(t, dk, NOBS + 1)
+                  if sorted(names) != sorted(model) or any(w_ != len(model) for w_ in widths) or cols != list(range(len(model))) or any(vals[nm] != model[nm] for nm in model):
+                      wrong = [nm for nm in model if vals.get(nm) != model[nm]]
+                      bad = {'table before (name -> column)': {nm: c for c, nm in enumerate(st)}, 'operation': label,
+                             'names listed after': names, 'values per observation': widths, 'listed names expected': sorted(model),
+                             'feature that reads differently': (wrong[0], repr(vals.get(wrong[0])), repr(model[wrong[0]])) if wrong else None,
+                             'why': 'every observation (the appended copy of the first one included) carries exactly one value per listed feature, and a cell write touches one observation'}
                       break
       except orders.Unsupported as ex:
           raise shape_error('feature API not interpretable: %s' % ex, f0.loc())
